@@ -118,6 +118,9 @@ func init() {
 		"socks5.WriteAddrFromConnAddr", "socks5.AppendAddrFromConnAddr", "socks5.LengthOfAddrFromConnAddr", "socks5.clientDoRequest",
 		"ss2022.(*ShadowStreamServerConn).initWrite", "ss2022.(*ShadowStreamServerConn).prepareInitWriteBufs", "ss2022.(*ShadowStreamServerConn).Write",
 		"ss2022.(*ShadowStreamServerConn).readFromGeneric", "ss2022.(*ShadowStreamConn).ReadFrom", "ss2022.ReplyWithGibberish",
+		// dispatchers of boundary functions (no obligations of their own today; listed so that
+		// folding the function they dispatch to into them changes nothing)
+		"ss2022.(*ShadowStreamServerConn).ReadFrom",
 	} {
 		c06Boundary[n] = out
 	}
@@ -125,6 +128,7 @@ func init() {
 		"ss2022.(*ShadowStreamClientConn).initRead", "ss2022.(*ShadowStreamClientConn).Read", "ss2022.(*ShadowStreamClientConn).writeToGeneric",
 		"ss2022.(*ShadowStreamConn).Read", "ss2022.(*ShadowStreamConn).WriteTo", "ss2022.(*ShadowStreamConn).writeToShadowStreamConn",
 		"ss2022.(*StreamServer).HandleStream",
+		"ss2022.(*ShadowStreamClientConn).WriteTo", // dispatcher of writeToGeneric / writeToServerConn
 	} {
 		c06Boundary[n] = stream
 	}
